@@ -32,7 +32,7 @@ DELETABLE = ("ops",)
 
 NODES = (0, 1, 2, 3, 254)
 CHILDREN = (0, 1, 2, 254)
-ASPECTS = frozenset({"outcome", "registry"})
+ASPECTS = frozenset({"outcome", "registry"})  # application sends appear in histories only to vary the controller's state
 
 
 def budgets(tier: str) -> dict:
@@ -94,7 +94,8 @@ def _registry(draw) -> dict:
 
 
 def strategy(tier: str):
-    ops = st.lists(gen.with_ack(_line_strategy()).map(lambda line: ["rx", line]), min_size=5, max_size=25)
+    send = st.builds(lambda n, c, t, v: ["send", [n, c, 1, 0, t, v], None], st.sampled_from(NODES), st.sampled_from(CHILDREN), st.sampled_from((0, 2, 49)), gen.short_payloads)
+    ops = st.lists(gen.weighted((8, gen.with_ack(_line_strategy()).map(lambda line: ["rx", line])), (1, send)), min_size=5, max_size=25)
     return st.fixed_dictionaries(
         {
             "version": gen.versions_any,
@@ -146,6 +147,8 @@ def _nontrivial(case: dict) -> bool:
                 seen_value.add(int(node))
     interesting = False
     for op in case["ops"]:
+        if op[0] != "rx":
+            continue
         parts = op[1].rstrip("\n").split(";")
         if len(parts) < 6 or not all(plain_int(p) for p in parts[:5]):
             continue
